@@ -187,6 +187,37 @@ def rule_elements(ctx, models):
                   elab.locate(m, vn))
 
 
+# quantity kinds of the network-element parameters (textbook: series impedances convert with Z-base, shunt / charging
+# admittances with Y-base); the equations above are only the physical ones if every parameter is converted to the system base
+UNIT_KIND = {
+    "Line": {"r": "z", "x": "z", "b": "y", "g": "y", "b1": "y", "g1": "y", "b2": "y", "g2": "y"},
+    "Shunt": {"g": "y", "b": "y"},
+    "ShuntTD": {"g": "y", "b": "y"},
+    "ShuntSw": {"g": "y", "b": "y"},
+}
+KINDS = ("power", "ipower", "voltage", "current", "z", "y", "r", "g", "dc_voltage", "dc_current")
+
+
+def rule_units(ctx, models):
+    for name, table in UNIT_KIND.items():
+        m = models[name]
+        for pn, kind in table.items():
+            if pn not in m.params:
+                raise AnalysisError("%s.%s vanished" % (name, pn))
+            flags = sorted(k for k in KINDS if m.params[pn].property.get(k))
+            ctx.check(flags == [kind], "C01.units", "%s.%s" % (name, pn), "declared as `%s`: converted from the device base" % kind,
+                      "parameter %s.%s is declared with unit flags %s but is a `%s` quantity: it is %s, so data given on a device base "
+                      "different from the system base enters the network equations unconverted" % (
+                          name, pn, flags or "none", kind, "not converted" if not flags else "converted with the wrong ratio"),
+                      elab.locate(m, pn))
+    # tap, phi are dimensionless; status is not converted
+    m = models["Line"]
+    for pn in ("tap", "phi", "u"):
+        flags = sorted(k for k in KINDS if m.params[pn].property.get(k))
+        ctx.check(not flags, "C01.units", "Line.%s" % pn, "dimensionless: not converted", "Line.%s must not be base-converted (%s)" % (pn, flags),
+                  elab.locate(m, pn))
+
+
 # ---------------------------------------------------------------------------
 
 def _continue_conds(fn):
@@ -437,6 +468,8 @@ def run(ctx):
              "== independent textbook reference (pi-model with tap, phase shift and asymmetric shunts; shunts; PQ both regimes; "
              "PV; Slack; Jumper) by sympy normal form, symbolic in all parameters", 28)
     ctx.rule("C01.link", "every injection row is linked to the Bus variable/terminal of the textbook", 20)
+    ctx.rule("C01.units", "network-element parameters carry the unit flag of their physical kind (z for series impedance, y for "
+             "shunt/charging admittance), so calc_pu_coeff converts them (table from the textbook, cross-checked with C11.coeff)", 17)
     ctx.rule("C01.setpoint", "PV/Slack set-points are written into the bus variables", 3)
     ctx.rule("C01.partition", "adder/setter predicates partition the variables (exhaustive over flag valuations)", 2)
     ctx.rule("C01.assembly", "residual assembly: register all, accumulate with np.add.at, setters after adders, clear before, "
@@ -450,6 +483,7 @@ def run(ctx):
     repo = Repo()
     models = elab.load_models()
     rule_elements(ctx, models)
+    rule_units(ctx, models)
     rule_assembly(ctx, repo)
     rule_verdict(ctx, repo)
     rule_linear(ctx, repo)
